@@ -407,4 +407,7 @@ def run(report, repo):
   report.guard(r6_handler_pairing, report, repo)
   report.guard(r7_metadata, report, repo)
   from sa.rules import c01  # pylint: disable=g-import-not-at-top
-  report.guard(c01.r8_execute_returns_pass, report, repo)
+  report.guard(c01.r8_execute_returns_pass, report, repo, rule='C09-R8')
+  report.guard(c01.r1_who, report, repo, rule='C09-R10')
+  from sa.rules import c04  # pylint: disable=g-import-not-at-top
+  report.guard(c04.r8_single_body, report, repo, rule='C09-R9')
